@@ -134,6 +134,8 @@ def eval_op(op: str) -> str:
         if k == "msg_sign":
             key = net.keys.private(int(a[3]), is_compressed=a[4] == "1")
             return "ok " + tx(net.msg.sign(key, untx(a[6]), verbose=a[5] == "1"))
+        if k == "msg_sign_pub":
+            return "ok " + tx(net.msg.sign(_key(net, a[3]), untx(a[5]), verbose=a[4] == "1"))
         if k == "msg_verify":
             return _show_bool(net.msg.verify(_key(net, a[3]), untx(a[4]), untx(a[5])))
         if k == "msg_verify_h":
@@ -206,7 +208,7 @@ def eval_history(op: str) -> str:
 
 def op_config(op: str) -> str:
     a = op.split(" ")
-    if a[0] in ("msg_sign", "msg_verify", "msg_verify_h", "msg_recover"):
+    if a[0] in ("msg_sign", "msg_sign_pub", "msg_verify", "msg_verify_h", "msg_recover"):
         return a[2]
     return "openssl"
 
@@ -491,6 +493,10 @@ def oracle(op: str, out: str):
         want = ref_hash(a[1], untx(a[2]))
         if out != "ok %d" % want:
             return "hash_for_signing differs from SHA256d(varstr(magic) || varstr(message)) = %d" % want
+        return None
+    if k == "msg_sign_pub":
+        if out != "err ValueError":
+            return "signing with a public key: " + out[:60]
         return None
     if k == "msg_sign":
         net, cfg, d, comp, verbose, text = a[1], a[2], int(a[3]), a[4] == "1", a[5] == "1", untx(a[6])
@@ -785,6 +791,8 @@ def gen(ctx, emit):
     key_specs = ["p:%d,%d" % Q0]
     for net, cfg in ((("btc", "openssl"), ("btc", "pure"), ("doge", "pure"), ("zec", "openssl")) if ctx.thorough else (("btc", "openssl"), ("doge", "pure"))):
         addr = _net(net).keys.private(d0).address()
+        for vb in (0, 1):
+            emit("msg_sign_pub %s %s p:%d,%d %d %s" % (net, cfg, Q0[0], Q0[1], vb, tx(msg0)))
         specs = key_specs + ["a:" + tx(addr)]
         good = untx(impl("msg_sign %s %s %d 1 0 %s" % (net, cfg, d0, tx(msg0)))[3:]) if True else ""
         dec = ref_decode(good)
